@@ -50,6 +50,11 @@ def cases(tier, seed):
         cvkind = ["sliding", "expanding", "single"][int(rng.integers(0, 3))]
         if cvkind == "sliding":
             cv = ["sliding", {"fh": fh, "window_length": wl, "step_length": step}]
+            if rng.random() < 0.35:
+                # a longer first window, then windows of the regular length
+                iw = int(rng.integers(wl + 1, wl + 9))
+                cv[1]["initial_window"] = iw
+                n = max(n, iw + max(fh) + 3 + int(rng.integers(0, 8)))
         elif cvkind == "expanding":
             cv = ["expanding", {"fh": fh, "initial_window": wl, "step_length": step}]
         else:
@@ -128,6 +133,16 @@ def run_case(case, ctx):
         ctx.check("rows", len(res) == len(splits), "evaluate:row-count", "number of result rows differs from the number of splits",
                   rows=len(res), splits=len(splits))
         ctx.check("rows", col in res.columns, "evaluate:score-column-name", "score column is not test_<metric name>", columns=list(res.columns))
+        # the splitter's own report: one row per split it announces, at the cutoffs it announces
+        try:
+            n_rep, c_rep = int(cv.get_n_splits(y)), [int(y.index[c]) for c in cv.get_cutoffs(y)]
+        except Exception as e:  # noqa
+            n_rep, c_rep = None, None
+            ctx.tag("splitter-report-failed:" + type(e).__name__)
+        if n_rep is not None:
+            ctx.check("rows", len(res) == n_rep and [int(c) for c in res["cutoff"]] == c_rep, "evaluate:rows-not-the-splits-the-splitter-reports",
+                      "result rows / cutoffs are not the splits the splitter reports (get_n_splits / get_cutoffs)", rows=len(res), reported=n_rep,
+                      cutoffs=[int(c) for c in res["cutoff"]][:8], reported_cutoffs=c_rep[:8])
         if len(res) != len(splits) or col not in res.columns:
             return
         for i, r in enumerate(ref_rows):
